@@ -7,4 +7,11 @@ require (
 	github.com/spq/pkappa2 v0.0.0
 )
 
+require (
+	github.com/alecthomas/participle/v2 v2.1.4 // indirect
+	golang.org/x/net v0.55.0 // indirect
+	golang.org/x/sys v0.46.0 // indirect
+	rsc.io/binaryregexp v0.2.0 // indirect
+)
+
 replace github.com/spq/pkappa2 => /repo
